@@ -52,7 +52,7 @@ def addPathLoop (acc : List (Nat × Nat × Nat)) (v : Bytes) : Except OErr (List
     if (a :: b :: c :: d :: r).length % 4 = 0 then
       if (a.toNat * 256 + b.toNat, c.toNat) ∈ afiSafiKnown ∧ 1 ≤ d.toNat ∧ d.toNat ≤ 3 then
         addPathLoop (acc ++ [(a.toNat * 256 + b.toNat, c.toNat, d.toNat)]) r
-      else .error .other                                  -- KeyError
+      else addPathLoop acc r                              -- a family / action without a name is ignored (RFC 5492)
     else .ok acc
   | _ => .ok acc
 
